@@ -11,6 +11,7 @@ import Std.Data.HashSet
 import TemprenModel.Model.Bind
 import TemprenModel.Model.Template
 import TemprenModel.Model.Printer
+import TemprenModel.Model.Pipeline
 open Tempren Tempren.Proto
 
 def hexNibble (c : Char) : Option Nat :=
@@ -259,6 +260,86 @@ def decStyle (f : String) : Option Style :=
 
 def patElems (p : Pat) : List Elem := p.toList
 
+/-! full runs -/
+def decAPath (f : String) : Option APath := (decStr f).map (fun s => (parsePath s).parts)
+def decPure (f : String) : Option PurePath := (decStr f).map parsePath
+def encAPath (p : APath) : String := encStr (joinSlash p)
+
+def decEntry (f : String) : Option Entry :=
+  match f.splitOn ":" with
+  | [p, id, k, c] => do
+    let p ← decAPath p
+    let id ← id.toNat?
+    let c ← c.toNat?
+    let kind ← (match k.toList with
+      | ['f'] => some Kind.file
+      | ['d'] => some Kind.dir
+      | 'L' :: r => (decStr (String.ofList r)).map Kind.link
+      | _ => none)
+    pure { path := p, id := id, kind := kind, content := c }
+  | _ => none
+
+def decListWith {α : Type} (dec : String → Option α) (f : String) : Option (List α) := do
+  let items ← decList f
+  items.foldr (fun it acc => do let a ← acc; let x ← dec it; pure (x :: a)) (some [])
+
+def decFileRec (f : String) : Option FileRec :=
+  match f.splitOn ":" with
+  | [d, r] => do let d ← decAPath d; let r ← decPure r; pure { inputDir := d, rel := r }
+  | _ => none
+
+def decGen (f : String) : Option Gen :=
+  match f.toList with
+  | ['I'] => some .invalidName
+  | ['E'] => some .error
+  | 'P' :: r => (decPure (String.ofList r)).map Gen.path
+  | _ => none
+
+def decAnswer (f : String) : Option Answer :=
+  match f.toList with
+  | ['s'] => some .stop | ['i'] => some .ignore | ['o'] => some .override
+  | 'C' :: r => (decPure (String.ofList r)).map Answer.custom
+  | _ => none
+
+def encKind : Kind → String
+  | .file => "f" | .dir => "d" | .link t => "L" ++ encStr t
+
+def encEntry (e : Entry) : String :=
+  encAPath e.path ++ ":" ++ toString e.id ++ ":" ++ encKind e.kind ++ ":" ++ toString e.content
+
+def encEvent (e : Event) : String :=
+  encAPath e.dir ++ ":" ++ encStr (strPath e.src) ++ ":" ++ encStr (strPath e.dst) ++ ":" ++ encBool e.override
+
+def encPrim : Prim → String
+  | .mkdir p => "m:" ++ encAPath p
+  | .rename a b => "r:" ++ encAPath a ++ ":" ++ encAPath b
+
+def encOutcome : Outcome → String
+  | .done => "done" | .destExists => "destExists" | .invalidDest => "invalidDest" | .crash => "crash"
+  | .unmodelled => "unmodelled"
+
+def sortEntries (es : List Entry) : List Entry :=
+  es.mergeSort (fun a b => strLe (joinSlash a.path) (joinSlash b.path))
+
+def runModel (renamer strategy fault tree files gens answers : String) : String :=
+  match decListWith decEntry tree, decListWith decFileRec files, decListWith decGen gens,
+        decListWith decAnswer answers with
+  | some fs, some files, some gens, some answers =>
+    let strat := if strategy = "ignore" then Strategy.ignore else if strategy = "override" then Strategy.override
+                 else if strategy = "manual" then Strategy.manual else Strategy.stop
+    let gen := fun i => gens.getD i Gen.error
+    let faultAt := fault.toNat?
+    if renamer = "dry" then
+      let (r, o) := execute dryRenamer { base := fs } files gen strat answers
+      " ".intercalate [toString o.exitStatus, encOutcome o, encList (r.events.map encEvent), "l",
+        encList ((sortEntries r.st.base).map encEntry)]
+    else
+      let R := if renamer = "path" then realPathRenamer else realNameRenamer
+      let (r, o) := execute R { fs := fs, faultAt := faultAt } files gen strat answers
+      " ".intercalate [toString o.exitStatus, encOutcome o, encList (r.events.map encEvent),
+        encList (r.st.log.map encPrim), encList ((sortEntries r.st.fs).map encEntry)]
+  | _, _, _, _ => "bad-op"
+
 def encCountVal : Option CountVal → String
   | none => "E"
   | some (.int n) => "i" ++ toString n
@@ -451,6 +532,8 @@ def handle (line : String) : String :=
       let pn := match parseTemplate nested with | some p' => encPat p' | none => "rej"
       encStr piped ++ " " ++ encStr nested ++ " " ++ pp ++ " " ++ pn
     | _, _, _ => "bad-op"
+  | ["run", renamer, strategy, fault, tree, files, gens, answers] =>
+    runModel renamer strategy fault tree files gens answers
   | _ => "bad-op"
 
 partial def loop (h : IO.FS.Stream) (out : IO.FS.Stream) : IO Unit := do
